@@ -1,6 +1,7 @@
 CONSTANTS MaxObjs = 3
 MaxDepth = 5
 NOps = 3
+AllowedOps = {"new", "copy", "use", "del"}
 EmitHist = TRUE
 INIT Init
 NEXT Next
